@@ -215,13 +215,16 @@ class C06(PropertyCheck):
                  '.windows(1)', '.chunks(1)', '.group((a: int, b: int)->{a == b})', '.distinct()', '.with_count()', '.aggregate((a: int, b: int)->{a + b})',
                  '.zip(count().to_generator())', '.add([5].to_generator())', '.map((x: int)->{x})']
         ajobs, ameta = [], []
-        for first in ('[100, 1]', '[1, 100]', '[100]'):
-            for ad in ADAPT:
-                for cons in ('.take(3).to_array().len()', '.take(3).len()', '.take(3).last()'):
-                    src = ('fn deep(n: int)->int { if(n == 0, 0, 1 + deep(n - 1)) }\n'
-                           f'fn f()->str {{ to_str({first}.to_generator().map(deep){ad}{cons}) }}')
-                    ajobs.append({'id': f'a{len(ajobs)}', 'src': src, 'calls': ['f'], 'limits': {'depth': 30, 'search': 100000}})
-                    ameta.append((first, ad, cons))
+        # ... also when the element is in a skipped prefix (it is evaluated while being skipped)
+        ADAPT_SKIP = ['.skip(1)', '.skip(2)', '.skip(1).take(5)', '.take(5).skip(1)', '.skip(1).skip(1)', '.filter((x: int)->{true}).skip(2)']
+        for first, adl in ((('[100, 1]', '[1, 100]', '[100]'), ADAPT), (('[100, 1, 2, 3]', '[1, 100, 2, 3]', '[1, 2, 100, 3]'), ADAPT_SKIP)):
+          for first in first:
+            for ad in adl:
+                  for cons in ('.take(3).to_array().len()', '.take(3).len()', '.take(3).last()'):
+                      src = ('fn deep(n: int)->int { if(n == 0, 0, 1 + deep(n - 1)) }\n'
+                             f'fn f()->str {{ to_str({first}.to_generator().map(deep){ad}{cons}) }}')
+                      ajobs.append({'id': f'a{len(ajobs)}', 'src': src, 'calls': ['f'], 'limits': {'depth': 30, 'search': 100000}})
+                      ameta.append((first, ad, cons))
         ares = core.run_harness(ctx['binary'], ajobs, os.path.join(workdir, 'hv'))
         for job, (first, ad, cons) in zip(ajobs, ameta):
             r = ares.get(job['id'])
@@ -235,7 +238,29 @@ class C06(PropertyCheck):
                                    'case': {'src': job['src'], 'limits': job['limits']}, 'impl': out[:200], 'model': 'X:MaximumStackDepth'})
             else:
                 distinct += 1
-        ctx['coverage'] = {'evaluations': n_eval, 'distinct_nontrivial': distinct, 'samples': samples, 'injection_programs': len(jobs), 'violation_points': len(vjobs), 'forms': len(fjobs)}
+        # ---- (e) an error produced by a user callback INSIDE a collection operation (the equality of a mapping / set whose bucket is
+        # occupied, so that the comparison really runs) is the result of that operation: never 'not found', never a silent second entry
+        PRE = ('let hf = (x: int)->{ 0 };\nlet ef = (a: int, b: int)->{ if(a + b == 3, error("eqfail"), a == b) };\n'
+               'fn m1()->Mapping<int,int>{ mapping(hf, ef).set(1, 10) }\nfn s1()->Set<int>{ set(hf, ef).add(1) }\n')
+        EQ_OPS = ['m1().set(2, 20).len()', 'm1().lookup(2)', 'm1().get(2)', 'm1().contains(2)', 'm1().set_default(2, 5).len()', 'm1().pop(2).len()', 'm1().discard(2).len()',
+                  'm1().update([(2, 7)].to_generator()).len()', 's1().add(2).len()', 's1().contains(2)', 's1().remove(2).len()', 's1().discard(2).len()',
+                  '[1, 2].to_generator().distinct(hf, ef).to_array()', '[1, 2].to_generator().with_count(hf, ef).to_array().len()']
+        ejobs = [{'id': f'e{i}', 'src': PRE + f'fn f()->str {{ to_str({op}) }}', 'calls': ['f']} for i, op in enumerate(EQ_OPS)]
+        eres = core.run_harness(ctx['binary'], ejobs, os.path.join(workdir, 'he'))
+        for job, op in zip(ejobs, EQ_OPS):
+            r = eres.get(job['id'])
+            n_eval += 1
+            if r is None or r.get('compile') != 'ok':
+                print('EQ-FORM-NOT-COMPILING', op, (r and r.get('compile') or '')[:200].replace('\n', ' '), flush=True)
+                continue
+            out = r['calls'][0]
+            if not (out.startswith('E:') and 'eqfail' in out):
+                violations.append({'what': f'{op}: the error produced by the equality callback while an occupied bucket was searched must be the result of the operation',
+                                   'case': {'src': job['src']}, 'impl': out[:200], 'model': 'E:eqfail'})
+            else:
+                distinct += 1
+        ctx['coverage'] = {'evaluations': n_eval, 'distinct_nontrivial': distinct, 'samples': samples, 'injection_programs': len(jobs), 'violation_points': len(vjobs), 'forms': len(fjobs),
+                           'callback_error_forms': len(ejobs)}
         return violations
 
 
